@@ -1,0 +1,14 @@
+//go:build verif
+// +build verif
+
+package state
+
+// VerifHook, when set by a verification harness, is called at instrumented sites of the state
+// machine (build tag verif only). It may block: the harness uses it as a scheduler gate.
+var VerifHook func(site string)
+
+func verifHook(site string) {
+	if h := VerifHook; h != nil {
+		h(site)
+	}
+}
